@@ -11,6 +11,7 @@ import re
 from ..core import ctext
 from ..core.analysis import Analysis
 from ..core.escape import Escape, Exc, State
+from ..core.cfg import decompose_guard
 from ..core.pyrepo import Repo, calls_in, dotted, eval_cond, norm_stmt, platform_flags
 from ..core.report import AnalysisError
 from ..oracles import platforms as P
@@ -80,6 +81,50 @@ def run(ctx):
                                    "escapes": sorted({x.cls for x in es})} if len(ctx.samples) < 8 else None)
         nsites += len([1 for v in E.sites.values() if v in ("process", "param")])
     ctx.stat("per_process_access_sites", nsites)
+    # procfs accesses on platforms whose wrap_exceptions does not translate ENOENT
+    # (BSD: NetBSD reads /proc/<pid>/exe): a vanished process shows up there as
+    # FileNotFoundError, so the access itself must sit under a translation - the
+    # module's procfs context manager or a local handler
+    from ..core.astutil import enclosing_trys, handler_catches, path_templates
+    for pm in sorted(set(P.PLATFORM_MODULES.values())):
+        if "FileNotFoundError" in P.ARMED.get(pm, ()) or pm == "_pslinux":
+            continue
+        for f in repo.all_funcs(pm):
+            if f.cls != "Process":
+                continue
+            for c_ in [x for x in ast.walk(f.node) if isinstance(x, ast.Call)]:
+                nm_ = dotted(c_.func) or ""
+                if nm_ not in ("os.readlink", "os.listdir", "os.stat", "open", "open_binary",
+                               "open_text", "cat", "bcat") or not c_.args:
+                    continue
+                tm_ = path_templates(repo, f, c_.args[0])
+                if not any(t_.startswith("/proc/") and "{self.pid}" in t_ for t_ in tm_):
+                    continue
+                stmt_ = next(s_ for s_ in ast.walk(f.node) if isinstance(s_, ast.stmt)
+                             and not isinstance(s_, (ast.Try, ast.If, ast.FunctionDef, ast.With,
+                                                     ast.For, ast.While))
+                             and any(x is c_ for x in ast.walk(s_)))
+                covered = any(handler_catches(h, ["FileNotFoundError"])
+                              for t_ in enclosing_trys(f.node, stmt_) for h in t_.handlers)
+                for w_ in [x for x in ast.walk(f.node) if isinstance(x, ast.With)]:
+                    if any(y is stmt_ for b_ in w_.body for y in ast.walk(b_)):
+                        for it_ in w_.items:
+                            cm_ = it_.context_expr
+                            if isinstance(cm_, ast.Call):
+                                g_ = repo.func(pm, dotted(cm_.func) or "", required=False)
+                                if g_ is not None and any(
+                                        handler_catches(h, ["FileNotFoundError"])
+                                        for t_ in ast.walk(g_.node) if isinstance(t_, ast.Try)
+                                        for h in t_.handlers):
+                                    covered = True
+                key = f"procfs-enoent:{pm}:{f.qual}"
+                if covered:
+                    ctx.ok("C20.R1", key, sample=f"{f.qual}: {sorted(tm_)[0]} under an ENOENT translation")
+                else:
+                    ctx.fail("C20.R1", key, f.file, c_.lineno, f.qual,
+                             f"[{pm}] `{norm_stmt(c_)[:60]}` reads procfs but {pm}.wrap_exceptions does not "
+                             f"translate ENOENT: when the process is gone (or a zombie) the bare "
+                             f"FileNotFoundError escapes {f.qual}() instead of NoSuchProcess / ZombieProcess")
 
     # ------------------------------------------------------------------- R2
     ctx.rule("C20.R2", "translator matrix: per platform, each OS error class comes "
@@ -315,6 +360,31 @@ def run(ctx):
     if repl:
         ctx.ok("C20.R6", "net_if_addrs:broadcast",
                sample="the Windows broadcast address is bound to the record")
+        # ... for IPv4 AND IPv6 records (the documented behaviour): the families the
+        # guard of that computation admits
+        ncfg = A.cfg(nia)
+        fams = set()
+        for c_ in repl:
+            for n_ in ncfg.owners(c_):
+                for e_, p_, _ in ncfg.guards(n_):
+                    for a_, t_ in decompose_guard(e_, p_):
+                        if isinstance(a_, ast.Compare) and len(a_.ops) == 1 and t_ is True:
+                            op_, r_ = a_.ops[0], a_.comparators[0]
+                            if isinstance(op_, ast.In) and isinstance(r_, (ast.Set, ast.Tuple, ast.List)):
+                                fams |= {dotted(x) for x in r_.elts}
+                            elif isinstance(op_, ast.Eq):
+                                fams |= {dotted(r_), dotted(a_.left)}
+                        elif isinstance(a_, ast.BoolOp) and isinstance(a_.op, ast.Or) and t_ is True:
+                            for v_ in a_.values:
+                                if isinstance(v_, ast.Compare) and isinstance(v_.ops[0], ast.Eq):
+                                    fams |= {dotted(v_.comparators[0]), dotted(v_.left)}
+        fams = {f_.split(".")[-1] for f_ in fams if f_ and "AF_" in f_}
+        if {"AF_INET", "AF_INET6"} <= fams:
+            ctx.ok("C20.R6", "net_if_addrs:broadcast-families", sample=sorted(fams))
+        else:
+            ctx.fail("C20.R6", "net_if_addrs:broadcast-families", nia.file, repl[0].lineno, nia.qual,
+                     f"the Windows broadcast address is computed only for {sorted(fams) or 'no family'}: "
+                     f"the documented post-processing covers IPv4 and IPv6 records")
     ctx.ok("C20.R6", "pure-calls", sample=f"{nchecked} pure-call results are bound/returned")
     # MAC padding flows into the record: the variable in the address slot of the
     # snicaddr(...) record is the one a padding loop (`while v.count(sep) < 5:
